@@ -28,6 +28,7 @@ Definition HASH : N := 35.  Definition CR : N := 13.   Definition LF : N := 10.
 Definition TAB : N := 9.    Definition SP : N := 32.   Definition COLON : N := 58.
 Definition RB : N := 93.    Definition LOWX : N := 120. Definition SLASH : N := 47.
 Definition EQS : N := 61.
+Definition BANG : N := 33.  Definition QMARK : N := 63. Definition DASH : N := 45.
 
 (* XML 1.0 production [2] Char *)
 Definition is_xml_char (c : N) : bool :=
@@ -397,9 +398,41 @@ Fixpoint norm_eol (s : str) : str :=
               else c :: norm_eol r
   end.
 
+(* first occurrence of pat: (what precedes it, what follows it) *)
+Fixpoint scan_until (pat s : str) : option (str * str) :=
+  match s with
+  | [] => None
+  | c :: r => if is_prefix pat s then Some ([], skipn (length pat) s)
+              else match scan_until pat r with
+                   | Some (b, rest) => Some (c :: b, rest)
+                   | None => None
+                   end
+  end.
+
+Definition comment_open_tail : str := [33; 45; 45].     (* !-- *)
+Definition dashdash : str := [45; 45].
+Definition pi_close : str := [63; 62].                  (* ?> *)
+
+Definition is_ws (c : N) : bool := (c =? 32) || (c =? 9) || (c =? 10) || (c =? 13).
+Fixpoint take_nonws (s : str) : str :=
+  match s with
+  | [] => []
+  | c :: r => if is_ws c then [] else c :: take_nonws r
+  end.
+Definition lower (c : N) : N := if (65 <=? c) && (c <=? 90) then c + 32 else c.
+
+(* [16] PI: a target that is not (x|X)(m|M)(l|L); the body must not contain ?> *)
+Definition pi_ok (body : str) : bool :=
+  chars_legal body
+  && match take_nonws body with
+     | [] => false
+     | t => negb (str_eqb (map lower t) [120; 109; 108])
+     end.
+
 (* content of an element without child elements -> the string it denotes, or
    None when it is not well-formed.  k = number of `]` just seen in literal
-   text (the sequence ]]> must not occur there, 2.4). *)
+   text (the sequence ]]> must not occur there, 2.4).  Comments and processing
+   instructions inside the content contribute nothing. *)
 Fixpoint cd_dec (fuel : nat) (k : nat) (s : str) : option str :=
   match fuel with
   | O => None
@@ -425,7 +458,26 @@ Fixpoint cd_dec (fuel : nat) (k : nat) (s : str) : option str :=
                                else None
           | None => None
           end
-        | None => None
+        | None =>
+          (* [15] Comment: no -- inside, so the first -- must be the closing one *)
+          match strip_prefix comment_open_tail r with
+          | Some r1 =>
+            match scan_until dashdash r1 with
+            | Some (body, g :: r') => if (g =? GT) && chars_legal body then cd_dec f 0 r' else None
+            | _ => None
+            end
+          | None =>
+            match r with
+            | q :: r1 =>
+              if q =? QMARK then
+                match scan_until pi_close r1 with
+                | Some (body, r') => if pi_ok body then cd_dec f 0 r' else None
+                | None => None
+                end
+              else None
+            | [] => None
+            end
+          end
         end
       else if c =? CR then
         option_map (cons LF) (cd_dec f 0 (match r with
@@ -481,7 +533,9 @@ Inductive piece :=
 | PEnt (name : str)         (* &name; *)
 | PDec (digits : str)       (* &#digits; *)
 | PHex (digits : str)       (* &#xdigits; *)
-| PCData (body : str).      (* <![CDATA[body]]> - element content only *)
+| PCData (body : str)       (* <![CDATA[body]]> - element content only *)
+| PComment (body : str)     (* <!--body-->      - element content only, denotes nothing *)
+| PPI (body : str).         (* <?body?>         - element content only, denotes nothing *)
 
 Definition render_piece (p : piece) : str :=
   match p with
@@ -490,6 +544,8 @@ Definition render_piece (p : piece) : str :=
   | PDec ds => AMP :: HASH :: ds ++ [SEMI]
   | PHex ds => AMP :: HASH :: LOWX :: ds ++ [SEMI]
   | PCData b => LT :: cdata_open_tail ++ b ++ cdata_end
+  | PComment b => LT :: comment_open_tail ++ b ++ dashdash ++ [GT]
+  | PPI b => LT :: QMARK :: b ++ pi_close
   end.
 
 Definition render_pieces (ps : list piece) : str := flat_map render_piece ps.
@@ -503,6 +559,8 @@ Definition piece_value (p : piece) : str :=
   | PDec ds => opt_char (num_of 10 dec_digit 0 ds)
   | PHex ds => opt_char (num_of 16 hex_digit 0 ds)
   | PCData b => b
+  | PComment _ => []
+  | PPI _ => []
   end.
 
 Definition pieces_value (ps : list piece) : str := flat_map piece_value ps.
@@ -529,6 +587,8 @@ Definition ref_piece_ok (p : piece) : bool :=
   | PHex ds => nonempty ds && forallb (fun c => match hex_digit c with Some _ => true | None => false end) ds
                && char_opt_legal (num_of 16 hex_digit 0 ds)
   | PCData b => chars_legal b && negb (mem CR b) && negb (has_sub cdata_end b)
+  | PComment b => chars_legal b && negb (has_sub dashdash (b ++ [DASH]))
+  | PPI b => pi_ok b && negb (has_sub pi_close (b ++ [QMARK]))
   end.
 
 Fixpoint pieces_ok (k : nat) (ps : list piece) : bool :=
@@ -547,6 +607,8 @@ Definition apiece_ok (q : N) (p : piece) : bool :=
   match p with
   | PLit s => alit_ok q s
   | PCData _ => false
+  | PComment _ => false
+  | PPI _ => false
   | _ => ref_piece_ok p
   end.
 
@@ -598,12 +660,18 @@ Definition textop_model (o : textop) : text :=
 Definition txt_case := (textop * text)%type.
 Definition txt_agrees (c : txt_case) : bool := text_eqb (textop_model (fst c)) (snd c).
 
-(* --- Text with the escaped flag through the serialisers -------------- *)
-(* characters, escaped flag, attribute position?, raw slice written *)
-Definition esc_case := (str * bool * bool * str)%type.
+(* --- Text with the escaped flag, and Raw text, through the serialisers - *)
+(* Raw.escape returns self: Element.__escaped_text leaves Raw text untouched;
+   Attribute.__unicode__ has no Raw case and still writes TAB LF CR as references *)
+Definition render_raw_text (s : str) : str := s.
+Definition render_raw_attr (s : str) : str := apply_charrefs attr_charrefs s.
+
+(* characters, kind (0 Text, 1 Text escaped=True, 2 Raw), attribute position?, raw slice written *)
+Definition esc_case := (str * N * bool * str)%type.
 Definition esc_agrees (c : esc_case) : bool :=
-  let '(s, flag, isattr, raw) := c in
-  str_eqb ((if isattr then render_attr_value else render_text) (mkText s flag)) raw.
+  let '(s, kind, isattr, raw) := c in
+  str_eqb (if kind =? 2 then (if isattr then render_raw_attr s else render_raw_text s)
+           else (if isattr then render_attr_value else render_text) (mkText s (kind =? 1))) raw.
 
 (* --- request: one value in element or attribute position ----------- *)
 Inductive position := PosText | PosAttr (scope pi : list (str * str)).
